@@ -511,6 +511,32 @@ impl C12 {
                 }
             }
         }
+        // a substituted term in the root's stated proposition (justification untouched): what the step proves is not what
+        // it claims; locally evident for every kind of step except Fiat (handled above)
+        if !matches!(store.get(root).justification(), Justification::Fiat | Justification::Eval) {
+            let rp = store.get(root).proposition().clone();
+            let just = store.get(root).justification().clone();
+            let others: Vec<TermId> = nodes.iter().flat_map(|n| [w.prop(*n).lhs(), w.prop(*n).rhs()]).filter(|t| *t != rp.lhs() && *t != rp.rhs()).collect();
+            if let Some(other) = others.first() {
+                for forged in [Proposition::new(rp.lhs(), *other), Proposition::new(*other, rp.rhs())] {
+                    let mut s4 = store.clone();
+                    s4.verif_set(root, forged, just.clone());
+                    out.count("mutated_proof_checks", 1);
+                    out.count("substituted_root_term_checks", 1);
+                    match catch(|| eg.verif_check_proof(&mut s4, root, None)) {
+                        Ok(Err(_)) => {}
+                        Ok(Ok(())) => {
+                            out.fail("checker-accepts-mutated-proof:substituted-term-in-root-proposition", format!("{what}: the root step claims a proposition with one term replaced by {} and is accepted\n{}", w.s(*other), store.proof_to_string(root)));
+                            return false;
+                        }
+                        Err(p) => {
+                            out.fail(format!("panic:checker:{}", crate::fw::panic_key(&p)), format!("{what}: checker panicked on a substituted root proposition: {p}"));
+                            return false;
+                        }
+                    }
+                }
+            }
+        }
         if muts.is_empty() {
             return true;
         }
